@@ -25,9 +25,9 @@ import (
 )
 
 type pkgSpec struct {
-	Import string   `json:"import"` // import path
-	Files  []string `json:"files"`  // base names to own ("*" = all non-test files)
-	Typed  bool     `json:"typed"`  // needs type info (map ranges, durable calls)
+	Import  string   `json:"import"` // import path
+	Files   []string `json:"files"`  // base names to own ("*" = all non-test files)
+	Typed   bool     `json:"typed"`  // needs type info (map ranges, durable calls)
 	Replace []struct {
 		File string `json:"file"`
 		Old  string `json:"old"`
@@ -151,18 +151,18 @@ type edit struct {
 }
 
 type rewriter struct {
-	fset  *token.FileSet
-	file  *ast.File
-	src   []byte
-	base  int // file base offset
-	edits []edit
-	info  *types.Info
-	spec  pkgSpec
-	name  string
-	n     int
-	used  bool
+	fset   *token.FileSet
+	file   *ast.File
+	src    []byte
+	base   int // file base offset
+	edits  []edit
+	info   *types.Info
+	spec   pkgSpec
+	name   string
+	n      int
+	used   bool
 	pbName string
-	errs  []string
+	errs   []string
 }
 
 func (r *rewriter) off(p token.Pos) int { return r.fset.Position(p).Offset }
@@ -288,6 +288,23 @@ func (r *rewriter) walk(n ast.Node) {
 		r.rewriteRange(x)
 		return
 	case *ast.CallExpr:
+		if id, ok := x.Fun.(*ast.Ident); ok && id.Name == "make" && len(x.Args) >= 1 {
+			isChan := false
+			if _, ok := x.Args[0].(*ast.ChanType); ok {
+				isChan = true
+			} else if r.info != nil {
+				if tv, ok := r.info.Types[x.Args[0]]; ok && tv.IsType() {
+					_, isChan = tv.Type.Underlying().(*types.Chan)
+				}
+			}
+			if isChan {
+				for _, a := range x.Args[1:] {
+					r.walk(a)
+				}
+				r.add(r.off(x.Pos()), r.off(x.End()), "vrt__.NewChan("+r.renderNode(x)+")")
+				return
+			}
+		}
 		if id, ok := x.Fun.(*ast.Ident); ok && id.Name == "close" && len(x.Args) == 1 {
 			if r.info != nil {
 				if _, isBuiltin := r.info.Uses[id].(*types.Builtin); !isBuiltin {
